@@ -148,7 +148,7 @@ def enumerate_pipeline(run, module, what, env=None, timeout=900, tag="OUT", extr
     return {n: v for n, (_, v) in enumerate(recs)}, read_ndjson(out_path)
 
 
-def enumerate_stream(run, module, what, sig_of, env=None, timeout=900, name="enum"):
+def enumerate_stream(run, module, what, sig_of, env=None, timeout=900, name="enum", extra_replay=None):
     """enumerate_pipeline + absorb for enumerations of millions of cases: nothing is held in memory but the rows that
     are not "ok" and one digest per distinct case"""
     import hashlib
@@ -157,11 +157,14 @@ def enumerate_stream(run, module, what, sig_of, env=None, timeout=900, name="enu
     res, n = tlc_stream(module, exp_path, env=env, timeout=timeout)
     run.add_tlc(res)
     out_path = run.path(name + ".res.ndjson")
-    harness(["replay", what, "--exp", exp_path, "--out", out_path], timeout=3600)
+    harness(["replay", what, "--exp", exp_path, "--out", out_path] + (extra_replay or []), timeout=3600)
     status = {}
     special = {}
+    classes = {}
     for r in iter_ndjson(out_path):
         st = r.get("status")
+        for k in ([("%s | %s" % (m.get("class"), m.get("what"))) for m in r.get("mismatch", [])] if st == "violation" else [st]):
+            classes[k] = classes.get(k, 0) + 1
         if st == "ok" and r.get("nontrivial", True):
             status[r["id"]] = 1
         elif st == "ok":
@@ -181,6 +184,7 @@ def enumerate_stream(run, module, what, sig_of, env=None, timeout=900, name="enu
             run.sample({"case": case, "result": "ok"})
         else:
             absorb(run, [special[i]], {i: case}, sig_of)
+    return classes
 
 
 def replay_pipeline(run, what, case, extra_replay=None):
@@ -358,11 +362,9 @@ def check_C11(run, replay):
         absorb(run, rows, cases, mismatch_sig("build"))
         return
     of = 16 if run.tier == "quick" else 1
-    cases, rows = enumerate_pipeline(run, "MC_Build", "build", env={"SLICE": run.seed % of, "OF": of}, timeout=6000,
-                                     name="tiny")
-    run.notes["tiny_classes"] = class_counts(rows)
     run.exhaustive = (of == 1)
-    absorb(run, rows, cases, mismatch_sig("build"))
+    run.notes["tiny_classes"] = enumerate_stream(run, "MC_Build", "build", mismatch_sig("build"), env={"SLICE": run.seed % of, "OF": of},
+                                                 timeout=6000, name="tiny")
     if only_tiny:
         return
     # (b) U-edit
